@@ -20,11 +20,9 @@ import (
 	"github.com/tuneinsight/lattigo/v6/utils/bignum"
 )
 
-var mpScratch = []string{"*.noiseSampler", "*.buf", "*.bufDelta"}
-
 func mpScr(prefixes ...string) (o []string) {
 	for _, p := range prefixes {
-		for _, s := range []string{".noiseSampler", ".buf", ".bufDelta"} {
+		for _, s := range []string{".buf", ".bufDelta"} {
 			o = append(o, p+s)
 		}
 	}
@@ -181,7 +179,7 @@ func (e *mpbgvEnv) subjects() (subs []*subject) {
 	encScr := func(p string) []string { return []string{p + ".bufQ", p + ".bufT", p + ".bufB"} }
 	if e.same {
 		add(&subject{Ctor: "mpbgv.EncToShareProtocol.ShallowCopy",
-			Scratch: append(append(mpScr("*.KeySwitchProtocol"), encScr("*.encoder*")...), "*.maskSampler", "*.tmpPlaintextRingT", "*.tmpPlaintextRingQ"),
+			Scratch: append(append(mpScr("*.KeySwitchProtocol"), encScr("*.encoder*")...), "*.tmpPlaintextRingT", "*.tmpPlaintextRingQ"),
 			Make: func() any {
 				x, err := mpbgv.NewEncToShareProtocol(e.pIn, e.noise)
 				if err != nil {
@@ -218,7 +216,7 @@ func (e *mpbgvEnv) subjects() (subs []*subject) {
 			}})
 		add(&subject{Ctor: "mpbgv.RefreshProtocol.ShallowCopy",
 			Scratch: append(append(append(mpScr("*.MaskedTransformProtocol.e2s.KeySwitchProtocol", "*.MaskedTransformProtocol.s2e.KeySwitchProtocol"), encScr("*.MaskedTransformProtocol.e2s.encoder*")...), encScr("*.MaskedTransformProtocol.s2e.encoder*")...),
-				"*.MaskedTransformProtocol.e2s.maskSampler", "*.MaskedTransformProtocol.e2s.tmpPlaintextRingT", "*.MaskedTransformProtocol.e2s.tmpPlaintextRingQ", "*.MaskedTransformProtocol.s2e.tmpPlaintextRingQ",
+				"*.MaskedTransformProtocol.e2s.tmpPlaintextRingT", "*.MaskedTransformProtocol.e2s.tmpPlaintextRingQ", "*.MaskedTransformProtocol.s2e.tmpPlaintextRingQ",
 				"*.MaskedTransformProtocol.tmpPt", "*.MaskedTransformProtocol.tmpMask", "*.MaskedTransformProtocol.tmpMaskPerm"),
 			Make: func() any {
 				x, err := mpbgv.NewRefreshProtocol(e.pIn, e.noise)
@@ -258,7 +256,7 @@ func (e *mpbgvEnv) subjects() (subs []*subject) {
 	}
 	add(&subject{Ctor: "mpbgv.MaskedTransformProtocol.ShallowCopy",
 		Scratch: append(append(append(mpScr("*.e2s.KeySwitchProtocol", "*.s2e.KeySwitchProtocol"), encScr("*.e2s.encoder*")...), encScr("*.s2e.encoder*")...),
-			"*.e2s.maskSampler", "*.e2s.tmpPlaintextRingT", "*.e2s.tmpPlaintextRingQ", "*.s2e.tmpPlaintextRingQ", "*.tmpPt", "*.tmpMask", "*.tmpMaskPerm"),
+			"*.e2s.tmpPlaintextRingT", "*.e2s.tmpPlaintextRingQ", "*.s2e.tmpPlaintextRingQ", "*.tmpPt", "*.tmpMask", "*.tmpMaskPerm"),
 		Make: func() any {
 			x, err := mpbgv.NewMaskedTransformProtocol(e.pIn, e.pOut, e.noise)
 			if err != nil {
@@ -316,6 +314,7 @@ func newMPCKKSEnv(ps pset, po *pset, parties int) (*mpckksEnv, error) {
 	// a second output parameter set for WithParams: the input chain without its last prime
 	p2 := ps
 	p2.Q = ps.Q[:len(ps.Q)-1]
+	p2.LogScale = ps.LogScale - 5 // another default scale: the output of WithParams must be encoded at it
 	if e.pOut2, err = mkp(p2); err != nil {
 		return nil, err
 	}
